@@ -34,8 +34,24 @@ fn delete_tables(path: &std::path::Path, names: &[&str]) -> anyhow::Result<Vec<S
     Ok(deleted)
 }
 
+/// Create the named derived tables empty (what the first step of an open of an old file commits).
+fn recreate_empty(path: &std::path::Path, names: &[&str]) -> anyhow::Result<()> {
+    const LATEST: redb::TableDefinition<(&[u8; 32], &[u8; 32]), (u64, &[u8])> = redb::TableDefinition::new("latest-by-author-1");
+    const BY_KEY: redb::TableDefinition<(&[u8; 32], &[u8], &[u8; 32]), ()> = redb::TableDefinition::new("records-by-key-1");
+    let db = redb::Database::create(path)?;
+    let tx = db.begin_write()?;
+    if names.contains(&"latest-by-author-1") {
+        tx.open_table(LATEST)?;
+    }
+    if names.contains(&"records-by-key-1") {
+        tx.open_table(BY_KEY)?;
+    }
+    tx.commit()?;
+    Ok(())
+}
+
 /// Move every (writable) document from `namespaces-2` back to the older `namespaces-1` table.
-fn namespaces_to_v1(path: &std::path::Path) -> anyhow::Result<()> {
+pub(crate) fn namespaces_to_v1(path: &std::path::Path) -> anyhow::Result<()> {
     const V1: redb::TableDefinition<&[u8; 32], &[u8; 32]> = redb::TableDefinition::new("namespaces-1");
     const V2: redb::TableDefinition<&[u8; 32], (u8, &[u8; 32])> = redb::TableDefinition::new("namespaces-2");
     use redb::ReadableTable;
@@ -132,6 +148,16 @@ fn one(ctx: &mut Ctx, case: u64, rng: &mut Rng, scratch: &Scratch) {
         return;
     }
     ctx.count(&format!("deleted[{}]", names.join("+")), 1);
+    // An open of an old file commits in steps: first the missing tables are created empty, then each
+    // rebuild. A process that died after the first step leaves the derived tables present but
+    // empty; the next open must still rebuild them. One file in three is put into that state.
+    if !names.is_empty() && rng.chance(1, 3) {
+        if let Err(e) = recreate_empty(&path, &names) {
+            ctx.harness_error(format!("re-creating empty tables with plain redb failed: {e:?}"));
+            return;
+        }
+        ctx.count("files_left_by_an_interrupted_first_open", 1);
+    }
     // Files written before the by-key index existed may be older still: documents were then kept in
     // the table `namespaces-1` (id -> secret), which the open converts after it rebuilt the heads.
     // Half of the files without the index are put into that shape (all documents here are writable).
